@@ -3,6 +3,15 @@ families = correspondence families (harness `gen <fam>`) with quick-tier op coun
 monitor = number of monitor cases in the quick tier (harness `monitor <id>`)."""
 
 PROPS = {
+    "C03": {
+        "families": {"wrapper": 20000, "tokenfee": 10000, "fx": 4000},
+        "monitor": 20000,
+        "assumptions": [
+            "share values positive, position shares non-negative at the start of a history (preserved: theorems inc_nonneg/dec_nonneg)",
+            "token legs move exactly the booked amount (SPL Token) or, inbound with a Token-2022 transfer fee, at least the booked amount (theorem prefee_covers; the fee formula itself is diffed against the real TransferFee::calculate_fee)",
+            "prices and share values unchanged within a history, as the property states (no accrual between operations)",
+        ],
+    },
     "C17": {
         "families": {"wrapper": 20000, "bank": 12000, "fx": 4000},
         "monitor": 20000,
@@ -44,6 +53,12 @@ _NOTE = ("Trusted: Lean kernel; axioms propext/Classical.choice/Quot.sound only 
          "and by diffing model vs real code on generated operations. ")
 
 MANIFEST_TEXT = {
+    "C03": {
+        "text": "Machine-checked Lean 4 theorems in exact integer arithmetic (2^-96 token units): any successful balance increase by delta raises the position's net value by at most delta (deposit/repay/liquidation credit never credit more than paid); any successful decrease by delta lowers it by more than delta - (asv+lsv)*2^-48; withdraw_all pays floor() <= exact deposit value, repay_all charges ceil() > exact debt - 1 ulp; shares stay non-negative; hence for EVERY sequence of deposits/withdrawals/borrows/repayments (induction over arbitrary op lists, any amounts/timestamps, failed ops skipped) wallet + net position value grows by less than n*(asv+lsv)*2^-48 tokens; Token-2022: pre_fee(post) - fee(pre_fee) >= post for every bps in [0,10000], cap and amount. Model diffed against the real BankAccountWrapper and fee functions (~30k ops/run); same inequalities monitored with big integers on the real structs.",
+        "design_ref": "DESIGN.md §4 C03",
+        "note": _NOTE,
+        "technique": "Lean 4 proof: per-operation value bounds + potential-function induction over operation histories; model/implementation correspondence check",
+    },
     "C17": {
         "text": "Machine-checked Lean 4 theorems over all bank states, positions, amounts and limits: a successful non-bypass balance increase that mints deposit shares leaves floor(total deposits) strictly below an active deposit limit; likewise debt below the borrow limit; every successful non-bypass decrease (withdraw, borrow, withdraw-all) leaves total deposits >= total debt; the two liquidation bypass modes are the only paths that skip the caps (kernel-checked witness); depositing any amount up to get_remaining_deposit_capacity computed on the same bank state can never fail with BankAssetCapacityExceeded (one-unit safety margin proved sufficient). Model diffed against the real BankAccountWrapper/BankImpl code on ~32k generated operation steps per run (all error codes and panics compared), same predicates monitored on the real structs.",
         "design_ref": "DESIGN.md §4 C17",
